@@ -172,6 +172,7 @@ def h_pack_crash(p: int, j: int, band: int) -> None:
     """Crash at the p-th file-system operation of a pack (tear j of a write), then reopen."""
     with untraced():
         env, _, g, s, pre, stop = _setup(False)
+        s._save_index()             # an up-to-date index from before the pack exists (as after any clean reopen)
         start = len(env.fs.log)
         _pack(s, stop)
         log = env.fs.log
